@@ -192,7 +192,9 @@ def check_c03(ctx):
             lease = ctx.truth.lease_of(aname)
             if lease and sname in leaves:
                 vu = leaves[sname].valid_until
-                if not post.expiry < vu:
+                # (the expiry is computed from a clock read a few ticks after
+                # the one the lifetime check used: 1 ms of slack)
+                if not post.expiry <= vu + 1e-3:
                     prov = provs.get((aname, sname), 'renew' if renewed
                                      else 'unknown')
                     if new and prov == 'restore':
